@@ -83,6 +83,8 @@ func profile(name string) Profile {
 	case "registry": // C16
 		p.minComps, p.maxComps = 0, ecs.MaskTotalBits
 		mul(10, "reg")
+		mul(4, "qopen")
+		p.length = [2]int{30, 90}
 	case "dump": // C17
 		mul(15, "dumpload")
 		mul(3, "new", "rm", "bbatch", "alive")
@@ -961,7 +963,14 @@ func (g *G) legalOp(kind string) bool {
 		if len(g.x.comps) >= g.p.maxComps {
 			return false
 		}
+		before := len(g.x.comps)
 		g.register()
+		if len(g.x.comps) > before && g.rng.Intn(2) == 0 {
+			res := g.emit("NEWWITH", g.vals([]int{before}))
+			if strings.HasPrefix(res, "e ") {
+				g.emit("VIEW", strings.Fields(res)[1])
+			}
+		}
 	case "res":
 		if g.nRes < 6 && (g.nRes == 0 || g.rng.Intn(4) == 0) {
 			res := g.emit("RESREG", strconv.Itoa(1000+g.nRes))
@@ -998,14 +1007,29 @@ func (g *G) legalOp(kind string) bool {
 			}
 			return true
 		}
-		subs := g.rng.Intn(64)
-		comps := "-"
-		if g.rng.Intn(2) == 0 && n > 0 {
-			c := g.pickSub(seqInts(n), 3)
-			sort.Ints(c)
-			comps = strIDs(c)
+		one := func() (string, string) {
+			subs := g.rng.Intn(64)
+			comps := "-"
+			if g.rng.Intn(3) != 0 && n > 0 {
+				c := g.pickSub(seqInts(n), 3)
+				sort.Ints(c)
+				comps = strIDs(c)
+			}
+			return strconv.Itoa(subs), comps
 		}
-		g.emit("LISTEN", strconv.Itoa(subs), comps)
+		if g.rng.Intn(2) == 0 {
+			// a Dispatch over 0-4 sub-listeners, some of them added after construction
+			k := g.rng.Intn(5)
+			args := []string{strconv.Itoa(g.rng.Intn(k + 1))}
+			for i := 0; i < k; i++ {
+				a, b := one()
+				args = append(args, a, b)
+			}
+			g.emit("LISTEND", args...)
+			return true
+		}
+		a, b := one()
+		g.emit("LISTEN", a, b)
 	case "stats":
 		g.emit("STATS")
 	case "locked":
@@ -1137,10 +1161,37 @@ func (g *G) history(wk int, nops int) {
 	if g.p.maxComps > g.p.minComps {
 		ncomps += g.rng.Intn(1 + min(g.p.maxComps-g.p.minComps, 8))
 	}
+	if g.p.name == "registry" {
+		// boundary-heavy registry sizes: layout chunks of 16, mask words of 64, the limit
+		b := []int{0, 1, 2, 15, 16, 17, 18, 31, 32, 33, 34, 47, 48, 49, 63, 64}
+		if ecs.MaskTotalBits > 64 {
+			b = append(b, 65, 79, 80, 81, 127, 128, 129, 191, 192, 193, 239, 240, 241, 242, 254, 255, 256)
+		}
+		ncomps = b[g.rng.Intn(len(b))]
+		if g.rng.Intn(4) == 0 {
+			ncomps = g.rng.Intn(ecs.MaskTotalBits + 1)
+		}
+	}
 	g.nextK = g.rng.Intn(40) * numShapes
 	// keys are consecutive from a random offset: all shapes appear
 	for i := 0; i < ncomps; i++ {
 		g.register()
+		if g.p.name == "registry" && (i%16 == 0 || i%16 == 15 || g.rng.Intn(6) == 0) {
+			// tables created at many registry sizes: the newest ID must be usable at once
+			res := g.emit("NEWWITH", g.vals([]int{i}))
+			if strings.HasPrefix(res, "e ") {
+				g.emit("VIEW", strings.Fields(res)[1])
+			}
+		}
+	}
+	if g.p.name == "registry" && ncomps > 0 {
+		res := g.emit("NEWWITH", g.vals([]int{ncomps - 1}))
+		if strings.HasPrefix(res, "e ") {
+			g.emit("VIEW", strings.Fields(res)[1])
+		}
+		if ncomps == ecs.MaskTotalBits {
+			g.register() // one beyond the limit: must panic and leave the registry unchanged
+		}
 	}
 	if g.rng.Float64() < g.p.listener {
 		g.emit("LISTEN", "63", "-")
